@@ -798,6 +798,13 @@ impl RawUniverse for EpExposure {
         let rank = c.rel_rank(4);
         let pawn = sq(file, rank);
         let target = sq(file, c.rel_rank(5));
+        // every state also with a running half-move clock (accepted by parser, builder and setter)
+        let f = &mut |p: Pos| {
+            let mut a = p.clone();
+            a.hm = 7;
+            f(p);
+            f(a);
+        };
         for df in [-1i32, 1] {
             let cap = match refmodel::step(pawn, df, 0) {
                 Some(s) => s,
@@ -898,6 +905,13 @@ impl RawUniverse for EpCheck {
         let pawn = sq(file, c.rel_rank(4));
         let target = sq(file, c.rel_rank(5));
         let origin = sq(file, c.rel_rank(6));
+        // every state also with a running half-move clock (accepted by parser, builder and setter)
+        let f = &mut |p: Pos| {
+            let mut a = p.clone();
+            a.hm = 7;
+            f(p);
+            f(a);
+        };
         for caps in 1..4u8 {
             let mut base = Pos::empty();
             base.stm = c;
@@ -1282,6 +1296,178 @@ impl RawUniverse for RayFill {
         put(&mut base, k, Kind::K, c);
         put(&mut base, ek, Kind::K, c.other());
         Self::rec(&base, &ray, 0, self.max, c, f);
+    }
+}
+
+/// Long-record universe: the two 32-piece placements in which every empty square is isolated (the
+/// longest possible placement field, 71 characters) and everything reached from them by removing
+/// non-king pieces one after another in three fixed orders (ascending squares, descending squares,
+/// every other square first) — records of every length from 71 characters downwards, both sides to
+/// move, with and without castling rights.
+pub struct LongFen;
+impl RawUniverse for LongFen {
+    fn name(&self) -> String {
+        "S-LONGFEN".into()
+    }
+    fn bounds(&self) -> Value {
+        json!({"bases": 2, "removal_orders": 3, "removals": "0..30 non-king pieces", "sides_to_move": 2, "rights": "all four / none"})
+    }
+    fn parts(&self) -> usize {
+        2 * 3
+    }
+    fn part(&self, i: usize, f: &mut dyn FnMut(Pos)) {
+        let (placement, _) = CLOCK_BASES[4 + i % 2];
+        let order: Vec<Sq> = match i / 2 {
+            0 => (0..64).collect(),
+            1 => (0..64).rev().collect(),
+            _ => (0..64).step_by(2).chain((1..64).step_by(2)).collect(),
+        };
+        let sqs = match refmodel::text::decode_placement(placement) {
+            Some(x) => x,
+            None => return,
+        };
+        let mut p = Pos::empty();
+        p.sq = sqs;
+        let mut removed = 0;
+        let mut idx = 0;
+        loop {
+            for stm in Col::ALL {
+                let mut q = p.clone();
+                q.stm = stm;
+                f(q.clone());
+                // rights wherever king and rook still stand at home (king e-file or whatever the base has)
+                for c in Col::ALL {
+                    if let Some(k) = q.king_sq(c) {
+                        if refmodel::rank_of(k) == c.back_rank() {
+                            for file in 0..8u8 {
+                                if q.sq[sq(file, c.back_rank()) as usize] == Some((Kind::R, c)) {
+                                    let w = if file > refmodel::file_of(k) { SHORT } else { LONG };
+                                    if q.rights[c as usize][w].is_none() {
+                                        q.rights[c as usize][w] = Some(file);
+                                    }
+                                }
+                            }
+                        }
+                    }
+                }
+                f(q);
+            }
+            if removed >= 30 {
+                break;
+            }
+            // next removal
+            let mut done = false;
+            while idx < order.len() {
+                let s = order[idx];
+                idx += 1;
+                if let Some((k, _)) = p.sq[s as usize] {
+                    if k != Kind::K {
+                        p.sq[s as usize] = None;
+                        removed += 1;
+                        done = true;
+                        break;
+                    }
+                }
+            }
+            if !done {
+                break;
+            }
+        }
+    }
+}
+
+/// En-passant discovery universe: the double push has been played; the mover has a capturing pawn
+/// and, behind the capturer's square and/or behind the pushed pawn (seen from the ENEMY king, on
+/// every square of the board), a slider of its own at every distance — none, one or both. The
+/// capture (explored one ply) then uncovers no, one or two checks at once, through the two squares
+/// an en-passant capture empties.
+pub struct EpDiscover;
+impl RawUniverse for EpDiscover {
+    fn name(&self) -> String {
+        "S-EPDISCOVER".into()
+    }
+    fn bounds(&self) -> Value {
+        json!({"mover_colours": 2, "ep_files": 8, "capturer": "left or right", "enemy_king": "every square",
+               "own_sliders": "none or one (R|B by line type, or Q) at every distance behind the capturer's square, and none or one behind the pushed pawn, on the lines from the enemy king through those squares",
+               "mover_king": "first free far square"})
+    }
+    fn parts(&self) -> usize {
+        2 * 8
+    }
+    fn part(&self, i: usize, f: &mut dyn FnMut(Pos)) {
+        let c = Col::ALL[i / 8];
+        let file = (i % 8) as u8;
+        let them = c.other();
+        let pawn = sq(file, c.rel_rank(4));
+        let target = sq(file, c.rel_rank(5));
+        for df in [-1i32, 1] {
+            let cap = match refmodel::step(pawn, df, 0) {
+                Some(s) => s,
+                None => continue,
+            };
+            for ek in 0..64u8 {
+                if ek == pawn || ek == cap || ek == target {
+                    continue;
+                }
+                let mut base = Pos::empty();
+                base.stm = c;
+                base.ep = Some(target);
+                base.fm = 2;
+                put(&mut base, pawn, Kind::P, them);
+                put(&mut base, cap, Kind::P, c);
+                put(&mut base, ek, Kind::K, them);
+                // slider options behind a square x as seen from the enemy king
+                let behind = |x: Sq| -> Vec<Option<(Sq, Kind)>> {
+                    let mut out: Vec<Option<(Sq, Kind)>> = vec![None];
+                    let (dfx, drx) = (refmodel::file_of(x) as i32 - refmodel::file_of(ek) as i32, refmodel::rank_of(x) as i32 - refmodel::rank_of(ek) as i32);
+                    if !(dfx == 0 || drx == 0 || dfx.abs() == drx.abs()) {
+                        return out;
+                    }
+                    let d = (dfx.signum(), drx.signum());
+                    let ortho = d.0 == 0 || d.1 == 0;
+                    let mut cur = x;
+                    while let Some(n) = refmodel::step(cur, d.0, d.1) {
+                        cur = n;
+                        if n == pawn || n == cap || n == target {
+                            break;
+                        }
+                        out.push(Some((n, if ortho { Kind::R } else { Kind::B })));
+                        out.push(Some((n, Kind::Q)));
+                    }
+                    out
+                };
+                let o1 = behind(cap);
+                let o2 = behind(pawn);
+                for a in &o1 {
+                    for b2 in &o2 {
+                        if a.is_none() && b2.is_none() {
+                            continue;
+                        }
+                        let mut p = base.clone();
+                        if let Some((s1, k1)) = a {
+                            put(&mut p, *s1, *k1, c);
+                        }
+                        if let Some((s2, k2)) = b2 {
+                            if p.sq[*s2 as usize].is_some() {
+                                continue;
+                            }
+                            put(&mut p, *s2, *k2, c);
+                        }
+                        let mk = [0u8, 7, 56, 63, 1, 62, 8, 55].into_iter().find(|&q| {
+                            p.sq[q as usize].is_none() && ((refmodel::file_of(q) as i32 - refmodel::file_of(ek) as i32).abs() > 1 || (refmodel::rank_of(q) as i32 - refmodel::rank_of(ek) as i32).abs() > 1) && {
+                                let mut t = p.clone();
+                                put(&mut t, q, Kind::K, c);
+                                !t.in_check(c)
+                            }
+                        });
+                        if let Some(mk) = mk {
+                            put(&mut p, mk, Kind::K, c);
+                            f(p);
+                        }
+                    }
+                }
+            }
+        }
     }
 }
 
